@@ -29,9 +29,20 @@ type Pool struct {
 	Scratch  string // directory for progress files
 	// OnResult is called (serialised) with the JSON line of a finished unit.
 	OnResult func(unit string, line []byte)
+	// OnResultNext (optional, instead of OnResult): returns a follow-up unit to run on a FRESH worker ("" = unit done).
+	OnResultNext func(unit string, line []byte) string
 	// OnDeath is called (serialised) when the child executing unit died; progress = content of its progress file.
 	// It returns the unit to retry with (e.g. resume after the fatal case) or "" to give up on the unit.
 	OnDeath func(unit, why, progress string) string
+	// OnPartial (optional): a child may answer a unit with several lines; lines for which IsPartial reports true are
+	// passed to OnPartial (serialised) and the pool keeps waiting (watchdog restarted) for the final line.
+	IsPartial func(line []byte) bool
+	OnPartial func(unit string, line []byte)
+	// OnTime (optional) is told how long each attempt of a unit took.
+	OnTime func(unit string, d time.Duration, died bool)
+	// MaxDeaths (optional): a unit is abandoned after this many worker deaths (OnAbandon is told).
+	MaxDeaths int
+	OnAbandon func(unit string, deaths int)
 }
 
 type child struct {
@@ -41,6 +52,7 @@ type child struct {
 	out      *bufio.Reader
 	outf     *os.File
 	progress string
+	stderr   string
 }
 
 func (p *Pool) spawn(i int) (*child, error) {
@@ -54,7 +66,11 @@ func (p *Pool) spawn(i int) (*child, error) {
 	cmd.Env = append(append(os.Environ(), "VERIF_CHILD="+p.Mode, "VERIF_PROGRESS="+prog, "VERIF_WORKER=1"), p.Env...)
 	cmd.ExtraFiles = []*os.File{w}
 	cmd.Stdout = nil
-	cmd.Stderr = nil
+	errPath := filepath.Join(p.Scratch, fmt.Sprintf("stderr-%s-%d", p.Mode, i))
+	if ef, err := os.Create(errPath); err == nil {
+		cmd.Stderr = ef
+		defer ef.Close()
+	}
 	in, err := cmd.StdinPipe()
 	if err != nil {
 		return nil, err
@@ -63,7 +79,7 @@ func (p *Pool) spawn(i int) (*child, error) {
 		return nil, err
 	}
 	w.Close()
-	return &child{cmd: cmd, in: bufio.NewWriter(in), inc: in, out: bufio.NewReaderSize(r, 1<<20), outf: r, progress: prog}, nil
+	return &child{cmd: cmd, in: bufio.NewWriter(in), inc: in, out: bufio.NewReaderSize(r, 1<<20), outf: r, progress: prog, stderr: errPath}, nil
 }
 
 func (c *child) kill() {
@@ -106,6 +122,7 @@ func (p *Pool) Run(units []string) (completed int, all bool) {
 					return
 				}
 				unit := units[i]
+				deaths := 0
 				for unit != "" {
 					if c == nil {
 						var err error
@@ -118,11 +135,36 @@ func (p *Pool) Run(units []string) (completed int, all bool) {
 							continue
 						}
 					}
-					line, why := c.roundTrip(unit, p.Watchdog)
+					t0 := time.Now()
+					line, why := c.roundTrip(unit, p.Watchdog, func(l []byte) bool {
+						if p.IsPartial != nil && p.IsPartial(l) {
+							mu.Lock()
+							p.OnPartial(unit, l)
+							mu.Unlock()
+							return true
+						}
+						return false
+					})
+					if p.OnTime != nil {
+						mu.Lock()
+						p.OnTime(unit, time.Since(t0), why != "")
+						mu.Unlock()
+					}
 					if why == "" {
 						mu.Lock()
-						p.OnResult(unit, line)
+						next := ""
+						if p.OnResultNext != nil {
+							next = p.OnResultNext(unit, line)
+						} else {
+							p.OnResult(unit, line)
+						}
 						mu.Unlock()
+						if next != "" {
+							c.kill()
+							c = nil
+							unit = next
+							continue
+						}
 						atomic.AddInt64(&done, 1)
 						break
 					}
@@ -138,12 +180,26 @@ func (p *Pool) Run(units []string) (completed int, all bool) {
 							st += " signal=" + ws.Signal().String()
 						}
 					}
+					if eb, err := os.ReadFile(c.stderr); err == nil && len(eb) > 0 {
+						if len(eb) > 300 {
+							eb = eb[:300]
+						}
+						st += " stderr: " + strings.Join(strings.Fields(string(eb)), " ")
+					}
 					c = nil
 					mu.Lock()
 					if i := strings.IndexByte(string(prog), 0); i >= 0 {
 						prog = prog[:i]
 					}
 					unit = p.OnDeath(unit, why+" ("+st+")", strings.TrimSpace(string(prog)))
+					deaths++
+					if unit != "" && ((p.MaxDeaths > 0 && deaths >= p.MaxDeaths) || time.Now().After(p.Deadline)) {
+						if p.OnAbandon != nil {
+							p.OnAbandon(unit, deaths)
+						}
+						atomic.StoreInt32(&cut, 1)
+						unit = ""
+					}
 					mu.Unlock()
 				}
 			}
@@ -153,7 +209,7 @@ func (p *Pool) Run(units []string) (completed int, all bool) {
 	return int(done), atomic.LoadInt32(&cut) == 0
 }
 
-func (c *child) roundTrip(unit string, watchdog time.Duration) ([]byte, string) {
+func (c *child) roundTrip(unit string, watchdog time.Duration, partial func([]byte) bool) ([]byte, string) {
 	if _, err := c.in.WriteString(unit + "\n"); err != nil {
 		return nil, "child gone (write): " + err.Error()
 	}
@@ -164,24 +220,34 @@ func (c *child) roundTrip(unit string, watchdog time.Duration) ([]byte, string) 
 		line []byte
 		err  error
 	}
-	ch := make(chan res, 1)
-	go func() {
-		l, err := c.out.ReadBytes('\n')
-		ch <- res{l, err}
-	}()
-	select {
-	case r := <-ch:
-		if r.err != nil {
-			return nil, "child died: " + r.err.Error()
+	for {
+		ch := make(chan res, 1)
+		go func() {
+			l, err := c.out.ReadBytes('\n')
+			ch <- res{l, err}
+		}()
+		select {
+		case r := <-ch:
+			if r.err != nil {
+				return nil, "child died: " + r.err.Error()
+			}
+			if partial != nil && partial(r.line) {
+				continue
+			}
+			return r.line, ""
+		case <-time.After(watchdog):
+			return nil, fmt.Sprintf("no answer within %v (hang)", watchdog)
 		}
-		return r.line, ""
-	case <-time.After(watchdog):
-		return nil, fmt.Sprintf("no answer within %v (hang)", watchdog)
 	}
 }
 
 // ChildLoop is the body of TestChild: one unit per stdin line, one JSON line per unit on fd 3.
 func ChildLoop(handle func(unit string) interface{}) {
+	ChildLoopEmit(func(unit string, emit func(interface{})) interface{} { return handle(unit) })
+}
+
+// ChildLoopEmit is ChildLoop for handlers that also emit partial results (extra lines before the final one).
+func ChildLoopEmit(handle func(unit string, emit func(interface{})) interface{}) {
 	out := os.NewFile(3, "results")
 	w := bufio.NewWriterSize(out, 1<<20)
 	sc := bufio.NewScanner(os.Stdin)
@@ -191,13 +257,16 @@ func ChildLoop(handle func(unit string) interface{}) {
 		if unit == "" {
 			continue
 		}
-		b, err := json.Marshal(handle(unit))
-		if err != nil {
-			b, _ = json.Marshal(map[string]string{"unit": unit, "engine_error": err.Error()})
+		emit := func(v interface{}) {
+			b, err := json.Marshal(v)
+			if err != nil {
+				b, _ = json.Marshal(map[string]string{"unit": unit, "engine_error": err.Error()})
+			}
+			w.Write(b)
+			w.WriteByte('\n')
+			w.Flush()
 		}
-		w.Write(b)
-		w.WriteByte('\n')
-		w.Flush()
+		emit(handle(unit, emit))
 	}
 }
 
